@@ -144,8 +144,8 @@ Breaks(m) ==
   \cup {B("R_reserved", "type", n, 0) : n \in 1..3}
   \cup {B("R_reserved", "prop", k, n) : k \in {x \in ClassIdx(m) : Desc(m, x) = {}}, n \in 1..2}
   \cup {B("R_reserved", "method", k, n) : k \in ClassIdx(m), n \in 1..2}
-  \cup {B("R_reserved", "const", n, 0) : n \in 1..2}
-  \cup {B("R_reserved", "func", n, 0) : n \in 1..2}
+  \cup {B("R_reserved", "const", n, 0) : n \in 1..3}
+  \cup {B("R_reserved", "func", n, 0) : n \in 1..3}
     \* --- R_no_redeclare
   \cup {b \in [rule : {"R_no_redeclare"}, variant : {"prop", "method"}, k : TIdx(m), j : TIdx(m)] :
             /\ b.k \in ClassIdx(m) /\ b.j \in Anc(m, b.k) /\ IsClass(m.types[b.j])
@@ -181,11 +181,14 @@ Breaks(m) ==
   \cup {B("R_doc_refs", "attr_of", k, j) : k \in TIdx(m), j \in TIdx(m)}
   \cup {B("R_doc_refs", "attr_type", k, 0) : k \in TIdx(m)}
     \* --- R_pattern_anchored
-  \cup {B("R_pattern_anchored", v, f, 0) : v \in {"no_start", "no_end", "empty"}, f \in PatternIdx(m)}
+  \cup {B("R_pattern_anchored", v, f, 0) : v \in {"no_start", "no_end", "empty"},
+                                            f \in {x \in PatternIdx(m) : m.funcs[x].pattern # <<>>}}
 
 ReservedTypeSample == <<"Match", "I_thing", "Must_have">>
-ReservedMemberSample == <<"model_type", "descend">>
-ReservedSymbolSample == <<"Class", "match">>
+\* a name used by the generated SDKs, a name reserved for members only
+ReservedMemberSample == <<"model_type", "descend_once">>
+\* a keyword of many languages, a name reserved for types only, a name reserved for members only
+ReservedSymbolSample == <<"Class", "Visitor", "type_name">>
 
 Apply(b, m) ==
     LET t == IF b.k \in TIdx(m) THEN m.types[b.k] ELSE EmptyClass("Unused") IN
@@ -253,9 +256,16 @@ Apply(b, m) ==
                         [] b.variant = "empty" -> <<>>
              IN  [m EXCEPT !.funcs[b.k].pattern = q])
 
-\* the meta-models reachable by exactly d mutations, with the mutations that led there
+\* for a second mutation on top of a first one: one representative target per (rule, variant), the least <<k, j>>
+FirstTargets(m) ==
+    LET BS == Breaks(m)
+    IN  {b \in BS : \A c \in BS : (c.rule = b.rule /\ c.variant = b.variant) => (b.k < c.k \/ (b.k = c.k /\ b.j <= c.j))}
+BreaksAt(d, m) == IF d = 0 THEN Breaks(m) ELSE FirstTargets(m)
+
+\* the meta-models reachable by exactly d mutations, with the mutations that led there: every enabled mutation
+\* of a template, then one representative target per variant
 RECURSIVE Level(_)
 Level(d) ==
     IF d = 0 THEN {[m |-> tm, applied |-> <<>>] : tm \in Templates}
-    ELSE UNION {{[m |-> Apply(b, c.m), applied |-> Append(c.applied, b)] : b \in Breaks(c.m)} : c \in Level(d - 1)}
+    ELSE UNION {{[m |-> Apply(b, c.m), applied |-> Append(c.applied, b)] : b \in BreaksAt(d - 1, c.m)} : c \in Level(d - 1)}
 =============================================================================
